@@ -250,20 +250,20 @@ Variable X A : Type.
 Variable raw : X -> str.
 Variable mkseg : X -> option sref -> result A.
 Variable nm : A -> str.
-Variable admission : str * sref * structure -> list str -> str -> result unit.
+Variable acceptance : str * sref * structure -> list str -> str -> result unit.
 Variable root : sref.
 
 Notation gstate := (gstate A).
 Notation cur_group := (@cur_group A).
-Notation add_child := (add_child A nm admission).
-Notation open_group := (open_group t A nm admission).
-Notation open_groups := (open_groups t A nm admission).
-Notation reopen_group := (reopen_group t A nm admission).
-Notation place := (place X A mkseg nm admission).
-Notation after_found := (after_found t X A raw mkseg nm admission root).
-Notation attempts := (attempts t X A raw mkseg nm admission root).
-Notation step := (step t X A raw mkseg nm admission root).
-Notation run := (run t X A raw mkseg nm admission root).
+Notation add_child := (add_child A nm acceptance).
+Notation open_group := (open_group t A nm acceptance).
+Notation open_groups := (open_groups t A nm acceptance).
+Notation reopen_group := (reopen_group t A nm acceptance).
+Notation place := (place X A mkseg nm acceptance).
+Notation after_found := (after_found t X A raw mkseg nm acceptance root).
+Notation attempts := (attempts t X A raw mkseg nm acceptance root).
+Notation step := (step t X A raw mkseg nm acceptance root).
+Notation run := (run t X A raw mkseg nm acceptance root).
 
 Definition st_spine (s : gstate) : Prop := spine A (g_path s) (g_forest s).
 Definition st_closed (s : gstate) : Prop := closed A (g_path s) (g_forest s).
@@ -395,7 +395,7 @@ Qed.
 (* the forest returned by the search: no empty group, and its flattening is the list of the
    parsed segments, one per input item, in input order *)
 Theorem find_groups_order xs f :
-  find_groups t X A raw mkseg nm admission root xs = Ok f ->
+  find_groups t X A raw mkseg nm acceptance root xs = Ok f ->
   Forall (ne_tree A) f /\
   Forall2 (fun x a => exists sr, mkseg x sr = Ok a) xs (gflatten f).
 Proof.
@@ -543,20 +543,20 @@ Variable X A : Type.
 Variable raw : X -> str.
 Variable mkseg : X -> option sref -> result A.
 Variable nm : A -> str.
-Variable admission : str * sref * structure -> list str -> str -> result unit.
+Variable acceptance : str * sref * structure -> list str -> str -> result unit.
 Variable root : sref.
 
 Notation gstate := (gstate A).
 Notation cur_group := (@cur_group A).
-Notation add_child := (add_child A nm admission).
-Notation open_group := (open_group t A nm admission).
-Notation open_groups := (open_groups t A nm admission).
-Notation reopen_group := (reopen_group t A nm admission).
-Notation place := (place X A mkseg nm admission).
-Notation after_found := (after_found t X A raw mkseg nm admission root).
-Notation attempts := (attempts t X A raw mkseg nm admission root).
-Notation step := (step t X A raw mkseg nm admission root).
-Notation run := (run t X A raw mkseg nm admission root).
+Notation add_child := (add_child A nm acceptance).
+Notation open_group := (open_group t A nm acceptance).
+Notation open_groups := (open_groups t A nm acceptance).
+Notation reopen_group := (reopen_group t A nm acceptance).
+Notation place := (place X A mkseg nm acceptance).
+Notation after_found := (after_found t X A raw mkseg nm acceptance root).
+Notation attempts := (attempts t X A raw mkseg nm acceptance root).
+Notation step := (step t X A raw mkseg nm acceptance root).
+Notation run := (run t X A raw mkseg nm acceptance root).
 Notation sspine := (st_spine A).
 Notation sclosed := (st_closed A).
 
@@ -798,7 +798,7 @@ Proof.
         { apply Forall_forall. intros p Hp'. apply (proj1 (Forall_forall _ _) Hgood).
           rewrite <- (firstn_skipn (S j) ex). apply in_or_app. now right. }
         pose proof (open_groups_sound _ s r s2 Hsp (conj Hf Hr) Hch' Hg' Ha1) as Hs2.
-        rewrite El in Hs2. destruct (open_groups_spine t A nm admission _ _ _ Hsp Ha1) as (? & _ & ?). auto.
+        rewrite El in Hs2. destruct (open_groups_spine t A nm acceptance _ _ _ Hsp Ha1) as (? & _ & ?). auto.
       + apply negb_false_iff in Eneq. apply opt_eqb_eq in Eneq.
         destruct Hcase as [[_ E]|(ex' & g & Eex & E)]; [congruence|].
         rewrite E in Eneq. injection Eneq as ->.
@@ -815,7 +815,7 @@ Proof.
              { unfold st_spine, up. cbn [g_path g_forest].
                apply (closed_removelast A (g_path s) (g_forest s) Hc). }
              pose proof (open_group_sound up n r s2 pr' Hup (conj Hf Hr') Hdn Hgn Ha1) as Hs2.
-             destruct (open_group_spine t A nm admission _ _ _ _ Hup Ha1) as (? & _ & ?). rewrite Er. auto.
+             destruct (open_group_spine t A nm acceptance _ _ _ _ Hup Ha1) as (? & _ & ?). rewrite Er. auto.
           -- injection Ha1 as <-. rewrite Er. repeat split; assumption.
         * injection Ha1 as <-. rewrite Er. repeat split; assumption.
     - (* at top level *)
@@ -830,7 +830,7 @@ Proof.
         destruct j as [|j].
         * rewrite Hst in Ha1. change (skipn (S (0 + 0)) (stack_of ex)) with (map some_e ex) in Ha1.
           pose proof (open_groups_sound _ s root s2 Hsp (conj Hf Hr) Hch Hgood Ha1) as Hs2.
-          destruct (open_groups_spine t A nm admission _ _ _ Hsp Ha1) as (? & _ & ?). auto.
+          destruct (open_groups_spine t A nm acceptance _ _ _ Hsp Ha1) as (? & _ & ?). auto.
         * cbn [stack_of nth_error] in Hn. rewrite nth_error_map in Hn.
           destruct (nth_error ex j) as [[g gr]|]; [|discriminate]. cbn in Hn. injection Hn as <-. discriminate.
       + injection Ha1 as <-. destruct Hcase as [[-> _]|(ex' & g & _ & E)]; [|rewrite E in Etn; discriminate].
@@ -898,7 +898,7 @@ Qed.
    reference at top level) and carries the structure of its own reference; every segment parsed
    with a reference is a declared SEG child, under the name it had in the input *)
 Theorem find_groups_sound xs f :
-  find_groups t X A raw mkseg nm admission root xs = Ok f -> Forall (sound_tree root) f.
+  find_groups t X A raw mkseg nm acceptance root xs = Ok f -> Forall (sound_tree root) f.
 Proof.
   unfold find_groups. intros H. inv_bind H. injection H as <-.
   apply (run_sound xs (init_state A root) a); try assumption.
